@@ -264,8 +264,12 @@ def extra_configs(prop, tier, seed):
         # objectives on a tiny scale: improvements smaller than any fixed tolerance are still improvements
         pool = runlevel.gen_configs('thorough', seed + 161)
         for kind in ['PSO', 'AIWPSO', 'RPSO', 'HC', 'ABC', 'CS', 'FPA', 'HS', 'SA', 'GP']:
-            for c in [c for c in pool if c['kind'] == kind][:2 if tier == 'quick' else 6]:
-                extra.append(dict(c, hook='observer', adv=0.0, n_iter=max(c['n_iter'], 5), objective='tiny'))
+            for j_, c in enumerate([c for c in pool if c['kind'] == kind][:2 if tier == 'quick' else 6]):
+                c = dict(c, hook='observer', adv=0.0, n_iter=max(c['n_iter'], 5), objective=['tiny', 'tinier'][j_ % 2],
+                         n_agents=max(c['n_agents'], 3))
+                if j_ % 2 and c['space'] != 'tree':
+                    c.update(box='wide', lb=[-10.0] * c['n_vars'], ub=[10.0] * c['n_vars'])
+                extra.append(c)
     if prop in ('C02', 'C20', 'C07'):
         # objectives whose return value is a view of their argument, with optimizers that move agents in place and
         # with the swarm family: the stored fitness is the value returned, whatever happens to the argument later
